@@ -1,3 +1,4 @@
+import Dagrt.Model.Basic
 /-
 Model of `dagrt.language.ExecutionController` (reset / update_plan / __call__) — property C04.
 Statement ids are numbered by the harness.  Import-free.
@@ -23,8 +24,15 @@ structure UP where
   early : List Nat
   deriving Repr, DecidableEq
 
-mutual
-/-- `add_with_deps` -/
+/-- `for x in xs: u = f(u, x)` with exceptions -/
+def foldE (f : UP → Nat → Except CErr UP) : UP → List Nat → Except CErr UP
+  | u, [] => .ok u
+  | u, d :: ds =>
+    match f u d with
+    | .error e => .error e
+    | .ok u' => foldE f u' ds
+
+/-- `add_with_deps` (the dependency loop is the `foldE`) -/
 def addWithDeps (g : Graph) (executed : List Nat) : Nat → UP → Nat → Except CErr UP
   | 0, _, _ => .error .recursion
   | fuel+1, u, id =>
@@ -35,17 +43,13 @@ def addWithDeps (g : Graph) (executed : List Nat) : Nat → UP → Nat → Excep
       else if id ∈ u.early then .ok u
       else
         let u1 : UP := if id ∈ u.plan then { u with plan := u.plan.erase id } else u
-        match addList g executed fuel u1 deps with
+        match foldE (addWithDeps g executed fuel) u1 deps with
         | .error e => .error e
         | .ok u2 => .ok { u2 with early := u2.early ++ [id] }
-/-- `for dep_id in stmt.depends_on: add_with_deps(id_to_stmt[dep_id])` -/
-def addList (g : Graph) (executed : List Nat) : Nat → UP → List Nat → Except CErr UP
-  | _, u, [] => .ok u
-  | fuel, u, d :: ds =>
-    match addWithDeps g executed fuel u d with
-    | .error e => .error e
-    | .ok u' => addList g executed fuel u' ds
-end
+
+/-- `for stmt_id in execute_ids: add_with_deps(id_to_stmt[stmt_id])` -/
+def addList (g : Graph) (executed : List Nat) (fuel : Nat) (u : UP) (ds : List Nat) : Except CErr UP :=
+  foldE (addWithDeps g executed fuel) u ds
 
 /-- `update_plan(phase, execute_ids)`; `n` = number of statements (recursion depth bound) -/
 def updatePlan (g : Graph) (n : Nat) (s : St) (ids : List Nat) : Except CErr St :=
